@@ -317,22 +317,27 @@ def rule_flag_independence(rep: Report, repo: Repo, r1: str, r2: str) -> None:
         for r in lm.rows("DOC", k):
             if "exc" in r.val or r.error:
                 continue
-            key = ", ".join(f"{a}={b}" for a, b in sorted(r.val.items()) if not a.startswith("inc:"))
+            # rows are grouped by the state atoms they consulted (argument-count atoms are ignored: a branch that bails out
+            # early on a flag never reaches the arity tests)
+            key = ", ".join(f"{a}={b}" for a, b in sorted(r.val.items()) if not a.startswith("inc:") and a != "arity")
             groups.setdefault(key, []).append(r)
         for key, rs in groups.items():
             n1 += 1
             consulted = sorted({a for r in rs for a in r.val if a.startswith("inc:")})
-            sums = {r.summary() for r in rs}
-            if len(sums) > 1:
-                # report the deviating valuation(s) against the all-true / majority one
-                base = next((r for r in rs if default_flags(r)), rs[0])
-                for r in rs:
-                    if r.summary() != base.summary():
-                        rep.bad(r1, WHERE, f"DOC {k} [{key[:100]}] {_flagcond(r)}",
-                                f"a documented {k}() behaves differently when {_flagcond(r)}: does `{r.summary()}` instead of "
-                                f"`{base.summary()}`",
-                                witness=f"#[[[\\n# doc\\n#]]\\n{k}(...) with {_flagcond(r).replace('inc:', 'include_undocumented_')}",
-                                key=f"{r1}|DOC {k}|{_flagcond(r)}|{_delta(base, r)}")
+            by_flag: Dict[str, set] = {}
+            for r in rs:
+                by_flag.setdefault(_flagcond(r), set()).add(r.summary())
+            if len({frozenset(v) for v in by_flag.values()}) > 1:
+                base_fc = next((fc for fc in by_flag if fc == "" or "False" not in fc), sorted(by_flag)[0])
+                for fc, sums in by_flag.items():
+                    if sums != by_flag[base_fc]:
+                        r = next(x for x in rs if _flagcond(x) == fc)
+                        base = next(x for x in rs if _flagcond(x) == base_fc)
+                        rep.bad(r1, WHERE, f"DOC {k} [{key[:100]}] {fc}",
+                                f"a documented {k}() behaves differently when {fc or 'no flag is consulted'}: does `{' | '.join(sorted(sums))[:120]}` "
+                                f"instead of `{' | '.join(sorted(by_flag[base_fc]))[:120]}`",
+                                witness=f"#[[[\n# doc\n#]]\n{k}(...) with {fc.replace('inc:', 'include_undocumented_')}",
+                                key=f"{r1}|DOC {k}|{fc}|{_delta(base, r)}")
             else:
                 rep.ok(r1, WHERE, f"DOC {k} [{key[:100]}] flags consulted: {consulted or 'none'}")
     rep.floor(r1, 20, "documented-event groups")
